@@ -19,10 +19,10 @@ theorem packEvents_eq (info : CompId → CompInfo) (w : WM) (t off : Nat) (first
       match packStart w first with
       | none => []
       | some (w1, initial0, sh) =>
-        packFinishEvents t first.entity (isCreateCmd first) (closedMask w1.deps initial0) sh
+        packFinishEvents t first.entity (isCreateCmd first) (packInit (isCreateCmd first) w1.deps initial0) sh
           ((if isCreateCmd first then rest.zipIdx (off + 1) else (first :: rest).zipIdx off).foldl
             (packLifeStep info first.entity (isCreateCmd first))
-            { w := w1, p := { final := closedMask w1.deps initial0 } }) := by
+            { w := w1, p := { final := packInit (isCreateCmd first) w1.deps initial0 } }) := by
   rfl
 
 theorem mem_zipIdx_off {α : Type} (l : List α) (o : Nat) (ck : α × Nat) (h : ck ∈ l.zipIdx o) :
@@ -98,35 +98,35 @@ theorem pack_accepts (info : CompId → CompInfo) (w : WM) (t off : Nat) (pack :
       rcases packStart_facts w first w1 initial0 sh hs (packLifeOK_head w first rest hok) hmk with ⟨ha, hm0, hnc0⟩
       have harch : ∀ a, w1.arch a = w.arch a := fun a => by rw [arch_def, arch_def, ha]
       have hlive : live w1 F = live w F := live_congr F (fun a => by rw [harch]) (fun a => by rw [harch])
-      have inv0 : LifeFold t F (live w F) w1 (closedMask w1.deps initial0)
-          { w := w1, p := { final := closedMask w1.deps initial0 } } :=
+      have inv0 : LifeFold t F (live w F) w1 (packInit (isCreateCmd first) w1.deps initial0)
+          { w := w1, p := { final := packInit (isCreateCmd first) w1.deps initial0 } } :=
         ⟨masksOk_congr (fun a => by rw [harch]) hmk, by rw [hlive]; rfl, fun _ => ⟨rfl, rfl, rfl, rfl⟩,
-         maskOk_closedMask _ hm0, rfl, List.nodup_nil, (fun _ hc => absurd hc List.not_mem_nil),
+         (by unfold packInit; split; exact maskOk_closedMask _ hm0; exact hm0), rfl, List.nodup_nil, (fun _ hc => absurd hc List.not_mem_nil),
          (fun _ hc => absurd hc List.not_mem_nil), (fun _ hi hn => absurd hi hn),
          (fun _ hck => absurd hck List.not_mem_nil)⟩
       have hfin : ∀ (body : List Cmd) (o : Nat),
           (∀ ck ∈ body.zipIdx o, ∀ e' c v, ck.1 = Cmd.assign e' c v → F (.temp t ck.2 c) = true) →
           accepts (live w F)
-            (packFinishEvents t first.entity (isCreateCmd first) (closedMask w1.deps initial0) sh
+            (packFinishEvents t first.entity (isCreateCmd first) (packInit (isCreateCmd first) w1.deps initial0) sh
               ((body.zipIdx o).foldl (packLifeStep info first.entity (isCreateCmd first))
-                { w := w1, p := { final := closedMask w1.deps initial0 } })) =
-            some (live (packFinish info first.entity (isCreateCmd first) (closedMask w1.deps initial0) sh
+                { w := w1, p := { final := packInit (isCreateCmd first) w1.deps initial0 } })) =
+            some (live (packFinish info first.entity (isCreateCmd first) (packInit (isCreateCmd first) w1.deps initial0) sh
               (body.foldl (packStep info first.entity (isCreateCmd first))
-                (w1, { final := closedMask w1.deps initial0 }, []))).1 F) ∧
-          MasksOk (packFinish info first.entity (isCreateCmd first) (closedMask w1.deps initial0) sh
+                (w1, { final := packInit (isCreateCmd first) w1.deps initial0 }, []))).1 F) ∧
+          MasksOk (packFinish info first.entity (isCreateCmd first) (packInit (isCreateCmd first) w1.deps initial0) sh
               (body.foldl (packStep info first.entity (isCreateCmd first))
-                (w1, { final := closedMask w1.deps initial0 }, []))).1 := by
+                (w1, { final := packInit (isCreateCmd first) w1.deps initial0 }, []))).1 := by
         intro body o hbody
-        have inv := lifeFold_inv info t F hF (live w F) w1 (closedMask w1.deps initial0) first.entity
+        have inv := lifeFold_inv info t F hF (live w F) w1 (packInit (isCreateCmd first) w1.deps initial0) first.entity
           (isCreateCmd first) (body.zipIdx o) _ inv0 hbody
         have proj := lifeFold_proj info first.entity (isCreateCmd first) body o
-          { w := w1, p := { final := closedMask w1.deps initial0 } } []
-        have := packFinish_accepts info t F hF w w1 (closedMask w1.deps initial0) first.entity (isCreateCmd first) sh
+          { w := w1, p := { final := packInit (isCreateCmd first) w1.deps initial0 } } []
+        have := packFinish_accepts info t F hF w w1 (packInit (isCreateCmd first) w1.deps initial0) first.entity (isCreateCmd first) sh
           _ (body.foldl (packStep info first.entity (isCreateCmd first))
-                (w1, { final := closedMask w1.deps initial0 }, [])).2.2 inv
+                (w1, { final := packInit (isCreateCmd first) w1.deps initial0 }, [])).2.2 inv
           (fun hc _ => by
             rcases hnc0 hc with ⟨pi, h1, h2, h3, h4⟩
-            exact ⟨pi, h1, h2, by rw [h3], h4⟩)
+            exact ⟨pi, h1, h2, by rw [hc, packInit_existing, h3, h2.closed], h4⟩)
         rw [proj.1, proj.2] at this
         exact this
       by_cases hic : isCreateCmd first = true
